@@ -24,12 +24,20 @@ def read_a(inp, params):
     return jnp.concatenate([inp, jnp.reshape(jnp.sum(params.eq_params["a"]), (1,))])
 
 
+def read_b(v):
+    """how the equation reads parameter 'b': a scalar (or length-one) parameter as it is; a 2 x 2 matrix through two of
+    its entries (shape-sensitive: a flattened or transposed matrix is not the same parameter)"""
+    if jnp.ndim(v) == 2:
+        return v[1, 0] + 2.0 * v[0, 1]
+    return jnp.sum(v)
+
+
 class _Eq:
     R: Any
     def _res(self, pt, u_of_pt, params):
         val = u_of_pt(pt)
         jac = jax.jacfwd(u_of_pt)(pt)
-        eq = [jnp.reshape(jnp.sum(params.eq_params[k]), (1,)) for k in ("a", "b")]
+        eq = [jnp.reshape(jnp.sum(params.eq_params["a"]), (1,)), jnp.reshape(read_b(params.eq_params["b"]), (1,))]
         return self.R(jnp.concatenate([pt, val, jac.reshape(-1)] + eq))
 
 
@@ -52,10 +60,11 @@ class ScNonStatio(PDENonStatio, _Eq):
 
 
 class Scen:
-    def __init__(self, kind, B=2, k=1, tag="", hetero=None, a_shape=(), eq_order=("a", "b"), m=1):
+    def __init__(self, kind, B=2, k=1, tag="", hetero=None, a_shape=(), eq_order=("a", "b"), m=1, b_shape=()):
         """m: number of network outputs (term_specs is written for m == 1; m > 1 is for mode-equivalence obligations)"""
         self.kind, self.B, self.k, self.m = kind, B, k, m
         self.a_shape = tuple(a_shape)
+        self.b_shape = tuple(b_shape)           # () or (2, 2): see read_b
         self.eq_order = tuple(eq_order)         # the order in which the caller wrote the eq_params dictionary
         self.d = 1
         self.dp = {"ODE": 1, "statio": 1, "nonstatio": 2}[kind]        # point dimension
@@ -72,7 +81,7 @@ class Scen:
     # ---- inputs
     def inputs(self, mask_shape=None, extra=()):
         B, dp = self.B, self.dp
-        inp = [Inp("th", (1,)), Inp("a", self.a_shape), Inp("b", ()),
+        inp = [Inp("th", (1,)), Inp("a", self.a_shape), Inp("b", self.b_shape),
                Inp("pts", (B,) if self.kind == "ODE" else (B, dp)),
                Inp("wd", ()), Inp("wi", ()), Inp("wo", ()), Inp("wn", ()), Inp("wb", ()),
                Inp("t0", ()), Inp("u0", (self.m,)), Inp("oin", (B, dp)), Inp("oval", (B, self.m)),
@@ -143,7 +152,7 @@ class Scen:
         on = set(TERMS[kind]) if on is None else set(on)
         n = self.net.jet(s["th"])
         A = lambda i: (a_rows[i] if a_rows is not None else s["a"][()])
-        Bv = lambda i: (b_rows[i] if b_rows is not None else s["b"][()])
+        Bv = lambda i: (b_rows[i] if b_rows is not None else (s["b"][()] if self.b_shape == () else s["b"][1, 0] + 2 * s["b"][0, 1]))
         out = {t: P.ZERO for t in ALLKEYS[kind]}
         def point(i):
             return [s["pts"][i]] if kind == "ODE" else [s["pts"][i, l] for l in range(dp)]
